@@ -532,6 +532,7 @@ func RunEnum[C any](t *testing.T, p Enum[C]) {
 	start := time.Now()
 	idx := 0
 	nviol := 0
+	nfail := 0
 	seenKinds := map[string]bool{}
 	p.Each(func(c C) bool {
 		mine := idx%nsh == sh
@@ -582,8 +583,10 @@ func RunEnum[C any](t *testing.T, p Enum[C]) {
 			mu.Unlock()
 			return true
 		}
+		nfail++
 		if seenKinds[f.Kind] {
-			return true
+			// the enumeration goes on to find other kinds of failure, but not for ever
+			return nfail < 12
 		}
 		seenKinds[f.Kind] = true
 		if cj == nil {
